@@ -457,6 +457,38 @@ fn doc_strategy(tier: Tier) -> BoxedStrategy<DocCase> {
     aln::document(&hp, &Mode::both(), 4).prop_map(|doc| DocCase { doc }).boxed()
 }
 
+/// One record whose CIGAR has 65 535..70 000 operations (BAM parks it in a `CG` field behind a
+/// `kSmN` placeholder; SAM text writes it out), with the sequence missing or present: the two
+/// routes must still read back as the same record.
+fn huge_doc_strategy(tier: Tier) -> BoxedStrategy<DocCase> {
+    use crate::r#gen::aln::{AlnDoc, CigarSpec, QualSpec, SeqSpec};
+    let hp = HeaderParams::for_tier(tier);
+    let mut mode = Mode::both();
+    mode.max_aux = 3;
+    let n_ops = prop_oneof![2 => proptest::sample::select(vec![65_535u32, 65_536, 65_537, 70_000]), 3 => 65_536u32..=70_000];
+    (aln::header_with(&hp), aln::record_proto(&mode), n_ops, any::<u32>(), 0u8..4)
+        .prop_map(|(header, mut r, n_ops, seed, shape)| {
+            r.cigar = CigarSpec::Huge { n_ops, seed };
+            match shape {
+                0 => {
+                    r.seq = SeqSpec::Bases(Default::default());
+                    r.qual = QualSpec::Scores(vec![]);
+                }
+                1 => {
+                    r.seq = SeqSpec::Auto { seed };
+                    r.qual = QualSpec::Scores(vec![]);
+                }
+                _ => {
+                    r.seq = SeqSpec::Auto { seed };
+                    r.qual = QualSpec::Auto { seed };
+                }
+            }
+            let n = header.n_ref();
+            DocCase { doc: AlnDoc { header, records: vec![r.resolve_refs(n)] } }
+        })
+        .boxed()
+}
+
 fn doc_check(c: &DocCase) -> Verdict {
     let doc = &c.doc;
     let n_ref = doc.header.n_ref();
@@ -601,22 +633,26 @@ fn doc_check(c: &DocCase) -> Verdict {
             }
             Ok(w.into_inner())
         })();
+        // a CIGAR of more than 65535 operations: the lazy record's data() still lists the CG field
+        // next to the restored CIGAR (the C05 finding c05.lazy.data.cg-visible); its own signature
+        let over = doc.records.iter().any(|r| r.cigar.n_ops() > 65535);
+        let lazy_sig = |s: &str| -> String { if over { format!("{s}:cigar>65535") } else { s.to_string() } };
         match lazy_result {
-            Err(e) => fails.push("c06.convert.bam2sam.lazy.error", e),
+            Err(e) => fails.push(lazy_sig("c06.convert.bam2sam.lazy.error"), e),
             Ok(t) => {
                 if folded {
                     if t != sam_bytes {
-                        fails.push("c06.convert.bam2sam.lazy.text", format!("lazy BAM → SAM text differs from the direct SAM rendering: {} vs {}", show(&t), show(&sam_bytes)));
+                        fails.push(lazy_sig("c06.convert.bam2sam.lazy.text"), format!("lazy BAM → SAM text differs from the direct SAM rendering: {} vs {}", show(&t), show(&sam_bytes)));
                     }
                 } else {
                     match read_sam_eager(&t, "c06.convert.bam2sam.lazy") {
                         Err(mut e) => fails.0.append(&mut e),
                         Ok((_, back)) => {
                             if back.len() != doc.records.len() {
-                                fails.push("c06.convert.bam2sam.lazy.count", format!("{} of {} records", back.len(), doc.records.len()));
+                                fails.push(lazy_sig("c06.convert.bam2sam.lazy.count"), format!("{} of {} records", back.len(), doc.records.len()));
                             } else {
                                 for (i, want) in doc.records.iter().enumerate() {
-                                    push_record_diffs(&mut fails, "c06.convert.bam2sam.lazy", &format!("record #{i} after lazy BAM → SAM"), &back[i].normalized(Norm::CROSS), &want.normalized(Norm::CROSS));
+                                    push_record_diffs(&mut fails, &lazy_sig("c06.convert.bam2sam.lazy"), &format!("record #{i} after lazy BAM → SAM"), &back[i].normalized(Norm::CROSS), &want.normalized(Norm::CROSS));
                                 }
                             }
                         }
@@ -676,6 +712,15 @@ pub fn property() -> Property {
                 doc_check,
                 24_000,
                 600_000,
+            )
+            .boxed(),
+            sub(
+                "sam_bam_huge_cigar",
+                "one record with 65 535..70 000 CIGAR operations, sequence missing / present / with qualities; every case is non-trivial when it has a dictionary or an aux field; oracles as sam_bam (SAM-read = BAM-read = written, conversions both ways incl. through the lazy records)",
+                huge_doc_strategy,
+                doc_check,
+                64,
+                800,
             )
             .boxed(),
         ],
